@@ -43,6 +43,53 @@ Theorem C16_copy_equal (s : state) (r : res (option nd)) :
 Proof. exact (copy_equal s r). Qed.
 Print Assumptions C16_copy_equal.
 
+(* ---- the full invariant.  Inv c = cache invariant + every stored broadcast part and the default
+   have no empty axis and are broadcast-compatible with the cached common shape.
+   Initial collection, every operation that returns normally, every call history.
+   Precondition [ok_run] (checked call by call on the state it is applied to): explicit layouts are
+   ellipsis-first, no empty axes, check= not disabled by the caller, and an update that does not fit
+   in place inserts an array which would have passed check_shape (the code inserts it unchecked:
+   C16_update_unchecked_refuted shows the clause fails without this restriction). *)
+Theorem C16_inv_init (app : bool) : Inv (init app).
+Proof. exact (inv_init app). Qed.
+Print Assumptions C16_inv_init.
+
+Theorem C16_inv_step (c : coll) (o : bop) (c' : coll) (p : bool) (r : option nd) :
+  bop_ok c o -> Inv c -> bstep c o = Ok (c', p, r) -> Inv c'.
+Proof. exact (inv_bstep c o c' p r). Qed.
+Print Assumptions C16_inv_step.
+
+Theorem C16_inv_reachable_partial (app : bool) (h : list op) :
+  ok_run (start app) h -> InvS (run (start app) h).
+Proof. exact (inv_reachable app h). Qed.
+Print Assumptions C16_inv_reachable_partial.
+
+(* under the invariant every stored array is returned by get with the collection's common shape
+   in its broadcast axes followed by its own sizes of the fixed / named / free axes *)
+Theorem C16_inv_get (c : coll) (nm : nat) (e : entry) :
+  Inv c -> lookup nm (c_arrays c) = Some e ->
+  exists r rest,
+    get c nm true = Ok (Some r) /\ e_lay e = LEll :: rest /\
+    shp r = c_shape c ++ skipn (length (shp (e_arr e)) - length rest) (shp (e_arr e)).
+Proof. exact (inv_get c nm e). Qed.
+Print Assumptions C16_inv_get.
+
+(* shape-incompatible insertions raise, for ellipsis-first layouts *)
+Theorem C16_set_incompatible_raises_first (c : coll) (name : nat) (a : nd) (rest : layout) :
+  count_ell rest = 0 -> length rest <= length (shp a) ->
+  (exists i, dim_ok (vw (c_app c) (firstn (length (shp a) - length rest) (shp a)) i)
+                    (vw (c_app c) (c_shape c) i) = false) ->
+  set c name a (Some (LEll :: rest)) false true = Err EValue.
+Proof. exact (set_incompatible_raises c name a rest). Qed.
+Print Assumptions C16_set_incompatible_raises_first.
+
+(* non-vacuity: a 10-call history (set with resize, link, resize, in-place update, broadcast,
+   expand, copy, reduce, pop) meets the precondition, every call returns, every get succeeds *)
+Example C16_nonvacuous :
+  ok_run (start true) demo_history /\ all_ok (start true) demo_history = true /\
+  gets_ok (main (run (start true) demo_history)) = true.
+Proof. exact demo_ok. Qed.
+
 (* clauses the faithful model refutes (each replayed on the implementation by props/c16.py) *)
 Theorem C16_set_incompatible_raises_refuted :
   exists app h, all_ok (start app) h = true /\ get (main (run (start app) h)) 2 true = Err EValue.
@@ -66,6 +113,16 @@ Theorem C16_pop_axes_stale :
     let c := main (run (start app) h) in c_axes c = [(0, 3)] /\ gna (c_arrays c) None = [].
 Proof. exact pop_axes_stale. Qed.
 Print Assumptions C16_pop_axes_stale.
+
+Theorem C16_update_named_axis_refuted :
+  exists app h, List.Forall op_first h /\ all_ok (start app) h = true /\
+    let c := main (run (start app) h) in
+    option_map (fun e => shp (e_arr e)) (lookup 0 (c_arrays c)) = Some [5] /\
+    option_map (fun e => shp (e_arr e)) (lookup 1 (c_arrays c)) = Some [3] /\
+    option_map e_lay (lookup 0 (c_arrays c)) = Some [LEll; LName 0] /\
+    option_map e_lay (lookup 1 (c_arrays c)) = Some [LEll; LName 0].
+Proof. exact update_named_axis_refuted. Qed.
+Print Assumptions C16_update_named_axis_refuted.
 
 Theorem C16_link_child_refuted :
   exists app h, List.Forall op_first h /\ all_ok (start app) h = true /\
